@@ -685,9 +685,10 @@ def run(ctx):
         if p not in q_p:
             n = 2 if p == 7 else 1
             mods = [m for m in mods if m[1] == 0][:n] + [m for m in mods if m[1] != 0][:n]
-        elif p == 13:
-            # thorough: every irreducible quadratic for p <= 11; for p = 13 six of each kind (78 moduli x 169^2 pairs is hours)
-            mods = [m for m in mods if m[1] == 0][:6] + [m for m in mods if m[1] != 0][:6]
+        elif p >= 11:
+            # thorough: every irreducible quadratic for p <= 7; six [three] of each kind for p = 11 [13] (all of them cost hours)
+            n = 6 if p == 11 else 3
+            mods = [m for m in mods if m[1] == 0][:n] + [m for m in mods if m[1] != 0][:n]
         for mc in mods:
             nquad += 1
             tasks.append(("tables", {"p": p, "mc": list(mc)}))
@@ -699,8 +700,8 @@ def run(ctx):
                         else {"A": "structured:12", "B": "structured:4", "Bmax": 8, "Amax": 100})
             else:
                 first = list(mc) == list(fl.deg12_moduli(p)[0])
-                spec = ({"A": "all" if first else "structured:1500", "B": "structured:20", "Bmax": 60} if p == 2
-                        else {"A": "structured:%d" % (1000 if p == 3 else 250), "B": "structured:10", "Bmax": 40})
+                spec = ({"A": "all" if first else "structured:600", "B": "structured:20", "Bmax": 30} if p == 2
+                        else {"A": "structured:%d" % (400 if p == 3 else 150), "B": "structured:10", "Bmax": 24})
             spec.update({"p": p, "mc": list(mc)})
             tasks.append(("tables", spec))
     full = []
